@@ -47,6 +47,9 @@ def cases(ctx):
                            psi_prob=0.3)
     out += dc.random_cases(rng, n // 3, 7, (-3, -1, 0, 2), S=2, inners=("sq", "eu"), pens=(0, 1, 3), mss=(0, 0, 5),
                            psi_prob=0.3)
+    # relaxed ends under a sliding band (1-D and 2-D): the end scans of the C kernels with skipped columns
+    out += dc.sliding_end_cases(rng, n // 4, [(0,), (1,), (3,), (6,)], ("sq", "eu"))
+    out += dc.sliding_end_cases(rng, n // 4, RECT2, ("sq", "eu"))
     # multivariate (ndim 2, 3): point alphabets with integer pairwise Euclidean distances
     out += ndim_cases(rng, n // 2, 5, RECT2, ("sq", "eu"), pens=(0, 1), mss=(0, 0, 4), mds=(0, 0, 7), psi_prob=0.3)
     out += ndim_cases(rng, n // 3, 5, RECT3, ("sq", "eu"), pens=(0, 1), mss=(0, 0, 5), mds=(0, 0, 11), psi_prob=0.3)
